@@ -28,6 +28,8 @@ struct Plan {
     ct_ms: u64,
     t_ms: Option<u64>,
     resolvable: bool,
+    /// simulated duration of the name lookup (the overall deadline keeps running meanwhile)
+    dns_ms: u64,
 }
 
 fn gen(g: &mut G) -> Plan {
@@ -97,7 +99,8 @@ fn gen(g: &mut G) -> Plan {
         3 => Some(*g.pick(&[100u64, 250, 450])),
         _ => Some(*g.pick(&[10_000u64, 120_000])),
     };
-    Plan { addrs, ct_ms, t_ms, resolvable: !g.chance(1, 25) }
+    let dns_ms = *g.pick(&[0u64, 0, 0, 50, 150, 300, 500]);
+    Plan { addrs, ct_ms, t_ms, resolvable: !g.chance(1, 25), dns_ms }
 }
 
 fn expected_order(p: &Plan) -> Vec<Addr> {
@@ -149,6 +152,10 @@ pub fn scenario(g: &mut G, ctx: &RunCtx) -> RunReport {
     if p.resolvable {
         sim.add_host(HOST, p.addrs.iter().map(|a| a.ip).collect());
     }
+    if p.dns_ms > 0 {
+        sim.set_dns_latency(HOST, p.dns_ms * NS_PER_MS);
+        g.probe("slow-name-lookup");
+    }
     let seen = Arc::new(Mutex::new(Seen::default()));
     for a in &p.addrs {
         let body = a.ip.to_string();
@@ -197,17 +204,18 @@ pub fn scenario(g: &mut G, ctx: &RunCtx) -> RunReport {
     let desc: Vec<String> = p.addrs.iter().map(|a| format!("{}{}", if a.ip.is_ipv6() { "6" } else { "4" }, beh(&a.beh))).collect();
     RunReport {
         verdict,
-        shape: format!("{}/ct={}/T={:?}/res={}", desc.join(","), p.ct_ms, p.t_ms, p.resolvable),
+        shape: format!("{}/ct={}/T={:?}/res={}/dns={}", desc.join(","), p.ct_ms, p.t_ms, p.resolvable, p.dns_ms),
         nontrivial: p.addrs.len() >= 2,
         stats,
         sched_tape: out.sched_tape,
         describe: if ctx.describe {
             format!(
-                "resolver={:?} connect_timeout={}ms timeout={:?}ms resolvable={}",
+                "resolver={:?} connect_timeout={}ms timeout={:?}ms resolvable={} lookup takes {}ms",
                 p.addrs.iter().map(|a| format!("{} {}", a.ip, beh(&a.beh))).collect::<Vec<_>>(),
                 p.ct_ms,
                 p.t_ms,
-                p.resolvable
+                p.resolvable,
+                p.dns_ms
             )
         } else {
             String::new()
@@ -231,6 +239,7 @@ fn oracle(p: &Plan, o: &Obs, h: &History, g: &mut G) -> Verdict {
     let order = expected_order(p);
     let ct = p.ct_ms * NS_PER_MS;
     let deadline = p.t_ms.map(|t| o.start + t * NS_PER_MS);
+    let race_start = o.start + p.dns_ms * NS_PER_MS;
     // attempts actually started, by start time (ties keep kernel order)
     let mut started: Vec<&attosim::ConnectRec> = h.connects.iter().collect();
     started.sort_by_key(|c| (c.t_start, c.seq));
@@ -252,7 +261,10 @@ fn oracle(p: &Plan, o: &Obs, h: &History, g: &mut G) -> Verdict {
             // with a deadline, an attempt whose turn comes at/after the deadline is legitimately skipped
             match deadline {
                 Some(d) => {
-                    let prev = starts[..idx].iter().rev().flatten().next().copied().unwrap_or(o.start);
+                    let prev = starts[..idx].iter().rev().flatten().next().copied().unwrap_or(race_start);
+                    if idx == 0 || starts[..idx].iter().all(|s| s.is_none()) {
+                        return race_start >= d;
+                    }
                     prev + RACE >= d || prev >= d
                 }
                 None => false,
@@ -312,6 +324,24 @@ fn oracle(p: &Plan, o: &Obs, h: &History, g: &mut G) -> Verdict {
                 }
             }
         }
+        // with an overall deadline every racing attempt is bounded by it: none is started at or after
+        // the deadline and none may outlive it (its own expiry is min(connect timeout, time left))
+        if let Some(d) = deadline {
+            for c in &started {
+                if c.t_start >= d {
+                    return violation(
+                        "attempt-started-after-deadline",
+                        format!("{} was dialled at {}ms, the overall deadline was {}ms", c.addr, c.t_start / NS_PER_MS, d / NS_PER_MS),
+                    );
+                }
+                if c.timeout_ns > ct.min(d - c.t_start) {
+                    return violation(
+                        "attempt-not-bounded-by-deadline",
+                        format!("{} was dialled at {}ms with a timeout of {}ms although only {}ms were left until the deadline", c.addr, c.t_start / NS_PER_MS, c.timeout_ns / NS_PER_MS, (d - c.t_start) / NS_PER_MS),
+                    );
+                }
+            }
+        }
         // no attempt starts after a success has been received
         if let Some(win) = started.iter().filter(|c| c.outcome.is_ok()).map(|c| c.t_end).min() {
             if let Some(late) = started.iter().find(|c| c.t_start > win) {
@@ -346,7 +376,7 @@ fn oracle(p: &Plan, o: &Obs, h: &History, g: &mut G) -> Verdict {
                 let mut best = u64::MAX;
                 for (i, a) in order.iter().enumerate() {
                     if let ConnectBehaviour::Accept { latency_ns } = a.beh {
-                        let latest_start = o.start + i as u64 * RACE;
+                        let latest_start = race_start + i as u64 * RACE;
                         let eff = match deadline {
                             Some(d) => ct.min(d.saturating_sub(latest_start)),
                             None => ct,
